@@ -587,6 +587,7 @@ def rule_visit_stateless(run):
 def rule_port_widths(run):
     from . import c12
     c12.rule_port_widths(run)    # port associations have matching widths
+    c12.rule_empty_interface(run)   # no empty interface list, every instantiation statement is terminated
 
 
 RULES = [rule_reserved, rule_vocabulary, rule_names, rule_templates, rule_choices, rule_sensitivity, rule_buffers, rule_castmatrix, rule_concat_cast, rule_visit_unconditional, rule_shadow, rule_hint_position, rule_sensitivity_merge, rule_interface_names, rule_refspec, rule_lexical, rule_visit_stateless, rule_port_widths]
